@@ -233,19 +233,25 @@ Qed.
 (* ---- mergeSupers as a state change ---------------------------------------------------------- *)
 Definition static_eq (c c' : cobj) : Prop :=
   co_name c' = co_name c /\ co_supers c' = co_supers c /\ co_slots c' = co_slots c.
-(* w' differs from w only in derived fields of class objects; ready classes stay ready *)
+(* w' differs from w only in derived fields of class objects *)
 Definition ext (w w' : world) : Prop :=
   reg w' = reg w /\ gfs w' = gfs w /\ insts w' = insts w /\ length (heap w') = length (heap w) /\
-  (forall j c, get w j = Some c -> exists c', get w' j = Some c' /\ static_eq c c' /\ (co_prec c <> [] -> co_prec c' <> [])).
+  (forall j c, get w j = Some c -> exists c', get w' j = Some c' /\ static_eq c c').
+(* ready classes stay ready *)
+Definition rmono (w w' : world) : Prop := forall j, readyb w j = true -> readyb w' j = true.
 Lemma ext_refl : forall w, ext w w.
 Proof. intros w. repeat split; auto. intros j c H. exists c. repeat split; auto. Qed.
 Lemma ext_trans : forall a b c, ext a b -> ext b c -> ext a c.
 Proof.
   intros a b c [R1 [G1 [I1 [L1 H1]]]] [R2 [G2 [I2 [L2 H2]]]]. repeat split; try congruence.
-  intros j x Hx. destruct (H1 j x Hx) as [y [Hy [[S1 [S2 S3]] P1]]].
-  destruct (H2 j y Hy) as [z [Hz [[T1 [T2 T3]] P2]]].
-  exists z. repeat split; try congruence. auto.
+  intros j x Hx. destruct (H1 j x Hx) as [y [Hy [S1 [S2 S3]]]].
+  destruct (H2 j y Hy) as [z [Hz [T1 [T2 T3]]]].
+  exists z. repeat split; try congruence.
 Qed.
+Lemma rmono_refl : forall w, rmono w w.
+Proof. intros w j H. exact H. Qed.
+Lemma rmono_trans : forall a b c, rmono a b -> rmono b c -> rmono a c.
+Proof. intros a b c H1 H2 j H. apply H2. apply H1. exact H. Qed.
 Lemma ext_get_none : forall w w' j, ext w w' -> get w j = None -> get w' j = None.
 Proof.
   intros w w' j [_ [_ [_ [L _]]]] H. unfold get in *. apply nth_error_None in H. apply nth_error_None. lia.
@@ -255,14 +261,14 @@ Proof.
   intros w w' E m. pose proof E as [R [_ [_ [_ H]]]]. unfold table. rewrite R.
   destruct (lookup (reg w) m) as [id|]; [|reflexivity].
   destruct (get w id) as [c|] eqn:G.
-  - destruct (H id c G) as [c' [G' [[_ [S _]] _]]]. rewrite G'. congruence.
+  - destruct (H id c G) as [c' [G' [_ [S _]]]]. rewrite G'. congruence.
   - rewrite (ext_get_none _ _ _ E G). reflexivity.
 Qed.
 Lemma ext_slots : forall w w', ext w w' -> forall p, slots_of (heap w') p = slots_of (heap w) p.
 Proof.
   intros w w' E p. pose proof E as [_ [_ [_ [_ H]]]]. unfold slots_of.
   destruct (nth_error (heap w) (fst p)) as [c|] eqn:G.
-  - destruct (H (fst p) c G) as [c' [G' [[_ [_ S]] _]]]. unfold get in G'. rewrite G'. assumption.
+  - destruct (H (fst p) c G) as [c' [G' [_ [_ S]]]]. unfold get in G'. rewrite G'. assumption.
   - pose proof (ext_get_none _ _ _ E G) as G'. unfold get in G'. rewrite G'. reflexivity.
 Qed.
 Lemma ext_good : forall w w' n c, ext w w' -> good w n c -> good w' n c.
@@ -276,12 +282,7 @@ Lemma ext_WF : forall w w', ext w w' -> WF w -> WF w'.
 Proof.
   intros w w' E [N H]. pose proof E as [R [_ [_ [_ HE]]]]. split; [rewrite R; assumption|].
   intros n id Hl. rewrite R in Hl. destruct (H n id Hl) as [c [G [Hn Hd]]].
-  destruct (HE id c G) as [c' [G' [[S1 [S2 _]] _]]]. exists c'. split; [assumption|]. split; congruence.
-Qed.
-Lemma ext_readyb : forall w w' j, ext w w' -> readyb w j = true -> readyb w' j = true.
-Proof.
-  intros w w' j [_ [_ [_ [_ H]]]] Hr. apply readyb_true in Hr. destruct Hr as [c [G P]].
-  destruct (H j c G) as [c' [G' [_ P']]]. apply readyb_true. eauto.
+  destruct (HE id c G) as [c' [G' [S1 [S2 _]]]]. exists c'. split; [assumption|]. split; congruence.
 Qed.
 
 Lemma with_heap_same : forall w, with_heap w (heap w) = w.
@@ -297,17 +298,28 @@ Proof.
       * repeat split; simpl; auto using set_nth_length.
         intros j x Hx. unfold get; simpl. destruct (Nat.eq_dec j id) as [->|Hne].
         -- rewrite nth_set_same by assumption. rewrite G in Hx. inversion Hx; subst x.
-           eexists. split; [reflexivity|]. split; [repeat split|]. intros _. apply mk_prec_nonnil.
+           eexists. split; [reflexivity|]. repeat split.
         -- rewrite nth_set_other by auto. exists x. repeat split; auto.
       * intros j Hne. unfold get; simpl. apply nth_set_other. auto.
     + split.
       * repeat split; simpl; auto using set_nth_length.
         intros j x Hx. unfold get; simpl. destruct (Nat.eq_dec j id) as [->|Hne].
         -- rewrite nth_set_same by assumption. rewrite G in Hx. inversion Hx; subst x.
-           eexists. split; [reflexivity|]. split; [repeat split|]. simpl. auto.
+           eexists. split; [reflexivity|]. repeat split.
         -- rewrite nth_set_other by auto. exists x. repeat split; auto.
       * intros j Hne. unfold get; simpl. apply nth_set_other. auto.
   - inversion H; subst. split; [apply ext_refl | auto].
+Qed.
+(* a merge of a class that is not ready, or a merge that succeeds, leaves every ready class ready *)
+Lemma merge_rmono : forall w id w' b, merge w id = (w', b) -> (b = true \/ readyb w id = false) -> rmono w w'.
+Proof.
+  intros w id w' b M Hc j Hj. destruct (merge_ext _ _ _ _ M) as [_ Hother].
+  destruct (Nat.eq_dec j id) as [->|Hne]; [|unfold readyb; rewrite (Hother j Hne); exact Hj].
+  destruct Hc as [->|Hc]; [|congruence].
+  unfold merge in M. destruct (get w id) as [c|] eqn:G; [|inversion M].
+  assert (Hlt : id < length (heap w)) by (eapply nth_error_Some_lt; exact G).
+  destruct (phase1 (reg w) (heap w) (co_supers c) []) as [ds|]; inversion M; subst.
+  apply readyb_true. eexists. split; [unfold get; simpl; apply nth_set_same; assumption|]. simpl. apply mk_prec_nonnil.
 Qed.
 
 (* merging a registered class all of whose direct supers are good makes it good *)
@@ -333,15 +345,25 @@ Proof.
     + exact Hgood.
 Qed.
 
-Lemma blank_eta : forall c, co_inherit c = [] ->
-  mkCO (co_name c) (co_supers c) (co_slots c) [] (co_prec c) (co_initargs c) (co_initforms c) = c.
-Proof. intros [] H. simpl in *. subst. reflexivity. Qed.
-(* a failing merge of a class whose inherit list is already empty changes nothing *)
-Lemma merge_fail_noop : forall w id c, get w id = Some c -> co_inherit c = [] ->
+Definition blanked (c : cobj) : cobj := mkCO (co_name c) (co_supers c) (co_slots c) [] [] (co_initargs c) (co_initforms c).
+Lemma blank_eta : forall c, blank c -> blanked c = c.
+Proof. intros [] [H1 H2]. unfold blanked. simpl in *. subst. reflexivity. Qed.
+Lemma blanked_blank : forall c, blank (blanked c).
+Proof. intros c. split; reflexivity. Qed.
+(* a failing merge of a class that is blank already changes nothing *)
+Lemma merge_fail_noop : forall w id c, get w id = Some c -> blank c ->
   phase1 (reg w) (heap w) (co_supers c) [] = None -> merge w id = (w, false).
 Proof.
-  intros w id c G B P. unfold merge. rewrite G, P. rewrite (blank_eta c B).
+  intros w id c G B P. unfold merge. rewrite G, P. fold (blanked c). rewrite (blank_eta c B).
   rewrite set_nth_same by exact G. rewrite with_heap_same. reflexivity.
+Qed.
+(* a failing merge blanks the class *)
+Lemma merge_fail_blank : forall w id c, get w id = Some c ->
+  phase1 (reg w) (heap w) (co_supers c) [] = None ->
+  exists w', merge w id = (w', false) /\ get w' id = Some (blanked c).
+Proof.
+  intros w id c G P. unfold merge. rewrite G, P. eexists. split; [reflexivity|].
+  unfold get. simpl. apply nth_set_same. eapply nth_error_Some_lt. exact G.
 Qed.
 Lemma merge_true_phase1 : forall w id w', merge w id = (w', true) ->
   exists c ds, get w id = Some c /\ phase1 (reg w) (heap w) (co_supers c) [] = Some ds.
@@ -427,11 +449,13 @@ Qed.
 
 (* one attempted merge of a registered class keeps "every class is good or blank" *)
 Lemma JX_merge_blank : forall w id n c, JX NoX w -> registered w n id c -> co_prec c = [] ->
-  forall w' b, merge w id = (w', b) -> JX NoX w' /\ ext w w' /\ (b = false -> w' = w).
+  forall w' b, merge w id = (w', b) -> JX NoX w' /\ ext w w' /\ rmono w w' /\ (b = false -> w' = w).
 Proof.
   intros w id n c [HWF HJ] Hr Hb w' b M.
   pose proof (merge_ext _ _ _ _ M) as [E Hother].
-  destruct (HJ n id c Hr) as [_ Hgb]. destruct (Hgb (fun x => x)) as [Hg|[_ Hinh]]; [exfalso; exact (good_ready _ _ _ Hg Hb)|].
+  assert (rmono w w') as HM.
+  { apply (merge_rmono _ _ _ _ M). right. unfold readyb. rewrite (proj2 Hr), Hb. reflexivity. }
+  destruct (HJ n id c Hr) as [_ Hgb]. destruct (Hgb (fun x => x)) as [Hg|Hinh]; [exfalso; exact (good_ready _ _ _ Hg Hb)|].
   destruct b.
   - (* success: all supers were ready, hence good *)
     destruct (merge_true_phase1 _ _ _ M) as [c0 [ds [G0 P]]]. destruct Hr as [Hl Hg]. rewrite Hg in G0. inversion G0; subst c0.
@@ -447,7 +471,7 @@ Proof.
       rewrite Hbs in Hall. discriminate. }
     destruct (merge_good w n id c HWF (conj Hl Hg) Hsup) as [w2 [c2 [M2 [G2 Hg2]]]].
     rewrite M in M2. inversion M2; subst w2.
-    split; [|split; [assumption | discriminate]].
+    split; [|split; [assumption | split; [assumption | discriminate]]].
     split; [eapply ext_WF; eassumption|].
     intros m j cm [Lm Gm]. split; [intros []|]. intros _.
     destruct (Nat.eq_dec j id) as [->|Hne].
@@ -462,31 +486,31 @@ Proof.
   - (* failure: nothing changes *)
     destruct Hr as [Hl Hg]. pose proof (merge_false_phase1 _ _ _ _ M Hg) as P.
     rewrite (merge_fail_noop w id c Hg Hinh P) in M. inversion M; subst w'.
-    split; [split; assumption|]. split; [apply ext_refl | reflexivity].
+    split; [split; assumption|]. split; [apply ext_refl|]. split; [apply rmono_refl | reflexivity].
 Qed.
 
 Lemma ready_pass_A : forall l w w' ch, JX NoX w -> all_registered w l -> ready_pass w l = (w', ch) ->
-  JX NoX w' /\ ext w w' /\ (ch = false -> w' = w) /\
+  JX NoX w' /\ ext w w' /\ rmono w w' /\ (ch = false -> w' = w) /\
   (ch = true -> exists id, In id l /\ readyb w id = false /\ readyb w' id = true).
 Proof.
   induction l as [|id r IH]; intros w w' ch HJ Hreg H; simpl in H.
-  - inversion H; subst. split; [assumption|]. split; [apply ext_refl|]. split; [reflexivity | discriminate].
+  - inversion H; subst. split; [assumption|]. split; [apply ext_refl|]. split; [apply rmono_refl|]. split; [reflexivity | discriminate].
   - destruct (readyb w id) eqn:R.
-    + destruct (IH w w' ch HJ) as [A [B [C D]]]; [intros x Hx; apply Hreg; right; assumption | assumption|].
-      split; [assumption|]. split; [assumption|]. split; [assumption|].
+    + destruct (IH w w' ch HJ) as [A [B [B' [C D]]]]; [intros x Hx; apply Hreg; right; assumption | assumption|].
+      split; [assumption|]. split; [assumption|]. split; [assumption|]. split; [assumption|].
       intros Hc. destruct (D Hc) as [x [X1 X2]]. exists x. split; [right; assumption | assumption].
     + destruct (merge w id) as [w1 ok] eqn:M. destruct (ready_pass w1 r) as [w2 ch2] eqn:P. inversion H; subst w' ch. clear H.
       destruct (Hreg id (or_introl eq_refl)) as [n [c Hr]].
       assert (co_prec c = []) as Hb.
       { destruct (co_prec c) eqn:Ec; [reflexivity|]. exfalso.
         assert (readyb w id = true) by (apply readyb_true; exists c; split; [apply Hr | congruence]). congruence. }
-      destruct (JX_merge_blank w id n c HJ Hr Hb w1 ok M) as [HJ1 [E1 N1]].
-      destruct (IH w1 w2 ch2 HJ1) as [A [B [C D]]]; [eapply ext_registered; [exact E1|]; intros x Hx; apply Hreg; right; assumption | assumption|].
-      split; [assumption|]. split; [eapply ext_trans; eassumption|]. split.
+      destruct (JX_merge_blank w id n c HJ Hr Hb w1 ok M) as [HJ1 [E1 [M1 N1]]].
+      destruct (IH w1 w2 ch2 HJ1) as [A [B [B' [C D]]]]; [eapply ext_registered; [exact E1|]; intros x Hx; apply Hreg; right; assumption | assumption|].
+      split; [assumption|]. split; [eapply ext_trans; eassumption|]. split; [eapply rmono_trans; eassumption|]. split.
       * intros Hc. apply orb_false_iff in Hc. destruct Hc as [Hc1 Hc2]. rewrite (C Hc2). apply N1. assumption.
       * intros Hc. destruct ok.
         -- exists id. split; [left; reflexivity|]. split; [assumption|].
-           apply (ext_readyb w1 w2); [assumption|]. eapply merge_true_ready; eassumption.
+           apply B'. eapply merge_true_ready; eassumption.
         -- simpl in Hc. destruct (D Hc) as [x [X1 [X2 X3]]]. exists x. split; [right; assumption|]. split; [|assumption].
            rewrite (N1 eq_refl) in X2. assumption.
 Qed.
@@ -515,17 +539,18 @@ Proof.
 Qed.
 
 Lemma ready_loop_A : forall l fuel w, JX NoX w -> all_registered w l -> nr w l < fuel ->
-  JX NoX (ready_loop fuel w l) /\ ext w (ready_loop fuel w l) /\ ready_pass (ready_loop fuel w l) l = (ready_loop fuel w l, false).
+  JX NoX (ready_loop fuel w l) /\ ext w (ready_loop fuel w l) /\ rmono w (ready_loop fuel w l) /\
+  ready_pass (ready_loop fuel w l) l = (ready_loop fuel w l, false).
 Proof.
   intros l. induction fuel as [|f IH]; intros w HJ Hreg Hn; [lia|]. simpl.
   destruct (ready_pass w l) as [w1 ch] eqn:P.
-  destruct (ready_pass_A l w w1 ch HJ Hreg P) as [HJ1 [E1 [C D]]].
+  destruct (ready_pass_A l w w1 ch HJ Hreg P) as [HJ1 [E1 [M1 [C D]]]].
   destruct ch.
   - destruct (D eq_refl) as [id Hid].
-    assert (nr w1 l < nr w l) by (apply nr_lt; [intros j; apply ext_readyb; assumption | exists id; assumption]).
-    destruct (IH w1 HJ1) as [A [B Cc]]; [eapply ext_registered; eassumption | lia|].
-    split; [assumption|]. split; [eapply ext_trans; eassumption | assumption].
-  - rewrite (C eq_refl) in *. split; [assumption|]. split; [apply ext_refl | assumption].
+    assert (nr w1 l < nr w l) by (apply nr_lt; [exact M1 | exists id; assumption]).
+    destruct (IH w1 HJ1) as [A [B [B' Cc]]]; [eapply ext_registered; eassumption | lia|].
+    split; [assumption|]. split; [eapply ext_trans; eassumption|]. split; [eapply rmono_trans; eassumption | assumption].
+  - rewrite (C eq_refl) in *. split; [assumption|]. split; [apply ext_refl|]. split; [apply rmono_refl | assumption].
 Qed.
 
 (* a pass that changes nothing shows that every not-ready member lacks a ready super *)
@@ -541,7 +566,7 @@ Proof.
     assert (co_prec cx = []) as Hb.
     { destruct (co_prec cx) eqn:Ec; [reflexivity|]. exfalso.
       assert (readyb w x = true) by (apply readyb_true; exists cx; split; [apply Hx | congruence]). congruence. }
-    destruct (JX_merge_blank w x nx cx HJ Hx Hb w1 false M) as [_ [_ N1]]. specialize (N1 eq_refl). subst w1.
+    destruct (JX_merge_blank w x nx cx HJ Hx Hb w1 false M) as [_ [_ [_ N1]]]. specialize (N1 eq_refl). subst w1.
     destruct Hi as [->|Hi].
     + destruct (registered_name_unique w n nx id c cx (proj1 HJ) Hc Hx) as [-> ->].
       pose proof (merge_false_phase1 _ _ _ _ M (proj2 Hx)) as Ph.
@@ -567,7 +592,7 @@ Proof.
   set (l := filter (fun id => negb (readyb w id)) rorder).
   assert (all_registered w l) as Hreg.
   { intros id Hi. apply filter_In in Hi. destruct Hi as [Hi _]. apply reg_ids_registered; [apply HJ | auto]. }
-  destruct (ready_loop_A l (S (length l)) w HJ Hreg) as [HJ' [E P]].
+  destruct (ready_loop_A l (S (length l)) w HJ Hreg) as [HJ' [E [HM P]]].
   { unfold nr. pose proof (filter_len_le _ (fun id => negb (readyb w id)) l). lia. }
   set (w' := ready_loop (S (length l)) w l) in *.
   split; [|assumption]. split; [assumption|].
@@ -578,7 +603,7 @@ Proof.
   apply (pass_false_F l w' HJ' (ext_registered _ _ _ E Hreg) P id) with (n := n); [|assumption|assumption].
   unfold l. apply filter_In. split.
   - apply Hall. pose proof (registered_reg_ids _ _ _ _ Hr) as Hi. unfold reg_ids in *. destruct E as [R _]. rewrite R in Hi. assumption.
-  - destruct (readyb w id) eqn:R; [|reflexivity]. rewrite (ext_readyb _ _ _ E R) in Hnr. discriminate.
+  - destruct (readyb w id) eqn:R; [|reflexivity]. rewrite (HM id R) in Hnr. discriminate.
 Qed.
 
 (* ---- classChanged when every class is already good --------------------------------------------- *)
@@ -619,20 +644,38 @@ Proof.
     rewrite (Hother j Hne) in Gm. rewrite (supers_ready_same w w' _ R Hsame). apply (HF m j cm); [split; assumption | assumption].
 Qed.
 
+Lemma fold_merge_good : forall l w, Inv w -> all_registered w l -> (forall id, In id l -> readyb w id = true) ->
+  Inv (fold_left (fun w id => fst (merge w id)) l w) /\ ext w (fold_left (fun w id => fst (merge w id)) l w).
+Proof.
+  induction l as [|id r IH]; intros w HI Hreg Hrd; simpl.
+  - split; [assumption | apply ext_refl].
+  - destruct (Hreg id (or_introl eq_refl)) as [m [c Hr]].
+    assert (good w m c) as Hg.
+    { pose proof (Hrd id (or_introl eq_refl)) as R. apply readyb_true in R. destruct R as [c' [G' P']].
+      destruct Hr as [L G]. rewrite G in G'. inversion G'; subst c'.
+      destruct HI as [[_ HJ] _]. destruct (HJ m id c (conj L G)) as [_ H]. destruct (H (fun x => x)) as [Hg|[Hb _]]; [assumption | contradiction]. }
+    assert (readyb w id = true) as Rid by (apply Hrd; left; reflexivity).
+    destruct (Inv_merge_good w id m c HI Hr Hg) as [w' [M [HI' E]]]. rewrite M. simpl.
+    pose proof (merge_ready_same _ _ _ M Rid) as Hsame.
+    destruct (IH w' HI') as [A B].
+    + eapply ext_registered; [exact E|]. intros x Hx. apply Hreg. right. assumption.
+    + intros x Hx. rewrite Hsame. apply Hrd. right. assumption.
+    + split; [assumption | eapply ext_trans; eassumption].
+Qed.
+
+Lemma stale_order_In : forall w n corder id, In id (stale_order w n corder) <-> In id corder /\ inherits w id n = true.
+Proof. intros w n corder id. unfold stale_order. rewrite sort_by_In. apply (filter_In (fun id => inherits w id n)). Qed.
+
 Lemma class_changed_A : forall n corder w, Inv w -> all_registered w corder ->
   Inv (class_changed w n corder) /\ ext w (class_changed w n corder).
 Proof.
-  intros n. unfold class_changed. induction corder as [|id r IH]; intros w HI Hreg; simpl.
-  - split; [assumption | apply ext_refl].
-  - destruct (inherits w id n) eqn:Hinh.
-    + destruct (Hreg id (or_introl eq_refl)) as [m [c Hr]].
-      assert (good w m c) as Hg.
-      { destruct HI as [[_ HJ] _]. destruct (HJ m id c Hr) as [_ H]. destruct (H (fun x => x)) as [Hg|[_ Hb]]; [assumption|].
-        unfold inherits in Hinh. rewrite (proj2 Hr) in Hinh. rewrite Hb in Hinh. discriminate. }
-      destruct (Inv_merge_good w id m c HI Hr Hg) as [w' [M [HI' E]]]. rewrite M. simpl.
-      destruct (IH w' HI') as [A B]; [eapply ext_registered; [exact E|]; intros x Hx; apply Hreg; right; assumption|].
-      split; [assumption | eapply ext_trans; eassumption].
-    + apply IH; [assumption|]. intros x Hx. apply Hreg. right. assumption.
+  intros n corder w HI Hreg. unfold class_changed. apply fold_merge_good; [assumption| |].
+  - intros id Hi. apply stale_order_In in Hi. apply Hreg. apply Hi.
+  - intros id Hi. apply stale_order_In in Hi. destruct Hi as [Hi Hinh].
+    destruct (Hreg id Hi) as [m [c Hr]]. apply readyb_true. exists c. split; [apply Hr|].
+    destruct HI as [[_ HJ] _]. destruct (HJ m id c Hr) as [_ H]. destruct (H (fun x => x)) as [Hg|[_ Hb]].
+    + eapply good_ready; eassumption.
+    + unfold inherits in Hinh. rewrite (proj2 Hr), Hb in Hinh. discriminate.
 Qed.
 
 (* ---- DefStandardClass up to RegisterClass ------------------------------------------------------- *)
@@ -907,9 +950,73 @@ Proof.
       right. exists sid. split; [reflexivity|]. unfold readyb. rewrite (get_wr_old w n supers slots sid (old_id_lt w HI s sid Ls)). exact Hf.
 Qed.
 
+(* the new object does not inherit n, and among the classes that do, a direct superclass has the shorter list *)
+Lemma phase1_In : forall rg hp supers acc res, phase1 rg hp supers acc = Some res ->
+  forall p, In p res -> In p acc \/ (In (snd p) supers /\ lookup rg (snd p) = Some (fst p)).
+Proof.
+  induction supers as [|s r IH]; intros acc res H p Hp; simpl in H.
+  - inversion H; subst. auto.
+  - destruct (lookup rg s) as [id|] eqn:L; [|discriminate].
+    destruct (nth_error hp id) as [sc|]; [|discriminate].
+    destruct (co_prec sc); [discriminate|].
+    destruct (inh_has acc s).
+    + destruct (IH _ _ H p Hp) as [A|[A B]]; [auto | right; split; [right; assumption | assumption]].
+    + destruct (IH _ _ H p Hp) as [A|[A B]].
+      * apply in_app_or in A. destruct A as [A|[A|[]]]; [auto|]. subst p. right. simpl. auto.
+      * right. split; [right; assumption | assumption].
+Qed.
+Lemma new_obj_not_stale : forall w n supers slots, Inv w ->
+  (forall s sid, In s supers -> lookup (reg w) s = Some sid -> s <> n /\ ~ In sid (sub_ids w n)) ->
+  inherits (defclass_reg w n supers slots) (length (heap w)) n = false.
+Proof.
+  intros w n supers slots HI G1.
+  destruct (defclass_reg_shape w n supers slots) as [_ [_ [newc [Hh [_ [_ [_ Hcase]]]]]]].
+  unfold inherits, get. rewrite Hh, nth_error_app_last.
+  set (hp2 := heap w ++ [new0 n supers slots]) in *.
+  destruct (phase1 (reg w) hp2 supers []) as [ds|] eqn:P; subst newc; [|reflexivity].
+  simpl. rewrite inh_has_memb. apply memb_false. intro Hin. apply in_map_iff in Hin. destruct Hin as [[i x] [Hx Hin]]. simpl in Hx. subst x.
+  apply phase2_In in Hin. destruct Hin as [Hin|[[di dm] [Hd Hin]]].
+  - destruct (phase1_In _ _ _ _ _ P _ Hin) as [[]|[A B]]. simpl in A, B. destruct (G1 n i A B) as [Hc _]. apply Hc. reflexivity.
+  - destruct (phase1_In _ _ _ _ _ P _ Hd) as [[]|[A B]]. simpl in A, B. destruct (G1 dm di A B) as [_ Hns]. apply Hns.
+    pose proof (old_id_lt w HI dm di B) as Hlt.
+    unfold inh_of in Hin. simpl in Hin. unfold hp2 in Hin. rewrite nth_error_app1 in Hin by assumption.
+    destruct (nth_error (heap w) di) as [sc|] eqn:G; [|contradiction].
+    apply sub_ids_In. split.
+    + unfold reg_ids. apply in_map_iff. exists (dm, di). split; [reflexivity | apply lookup_In; assumption].
+    + unfold inherits, get. rewrite G. rewrite inh_has_memb. apply memb_In. apply in_map_iff. exists (i, n). auto.
+Qed.
+Lemma reg_B_len : forall w n supers slots, Inv w ->
+  (forall s sid, In s supers -> lookup (reg w) s = Some sid -> s <> n /\ ~ In sid (sub_ids w n)) ->
+  forall id m c, In id (sub_ids (defclass_reg w n supers slots) n) -> registered (defclass_reg w n supers slots) m id c ->
+    forall s did, In s (co_supers c) -> lookup (reg (defclass_reg w n supers slots)) s = Some did ->
+      In did (sub_ids (defclass_reg w n supers slots) n) ->
+      inh_len (defclass_reg w n supers slots) did < inh_len (defclass_reg w n supers slots) id.
+Proof.
+  intros w n supers slots HI G1 id m c Hid Hr s did Hs Ld Hdid.
+  pose proof (new_obj_not_stale w n supers slots HI G1) as Hnew.
+  apply sub_ids_In in Hid. destruct Hid as [_ Hid]. apply sub_ids_In in Hdid. destruct Hdid as [_ Hdid].
+  destruct (registered_wr w n supers slots HI m id c Hr) as [[-> ->]|[Hne Hrw]]; [congruence|].
+  destruct (Nat.eq_dec s n) as [->|Hsn].
+  - rewrite (reg_wr_same w n supers slots) in Ld. inversion Ld; subst did. congruence.
+  - rewrite (reg_wr_other w n supers slots s Hsn) in Ld.
+    pose proof (old_id_lt w HI m id (proj1 Hrw)) as Hlt1. pose proof (old_id_lt w HI s did Ld) as Hlt2.
+    assert (good w m c) as Hg.
+    { pose proof HI as [[_ HJ] _]. destruct (HJ m id c Hrw) as [_ H]. destruct (H (fun x => x)) as [Hg|[_ Hb]]; [assumption|].
+      unfold inherits in Hid. rewrite (get_wr_old w n supers slots id Hlt1), (proj2 Hrw), Hb in Hid. discriminate. }
+    destruct (good_supers_good w m id c HI Hrw Hg s Hs) as [sid [sc [Hrs Hgs]]].
+    assert (sid = did) by (destruct Hrs as [L _]; congruence). subst sid.
+    unfold inh_len. rewrite (get_wr_old w n supers slots id Hlt1), (get_wr_old w n supers slots did Hlt2).
+    rewrite (proj2 Hrw), (proj2 Hrs).
+    destruct Hg as [[f Hf] _]. destruct Hgs as [[fs Hfs] _].
+    destruct f as [|f]; [discriminate|].
+    destruct (lin_super_shorter _ _ _ _ _ s Hf (registered_table _ _ _ _ Hrw) Hs) as [ls [Hls Hlen]].
+    assert (ls = map snd (co_inherit sc)) by (eapply lin_det; eassumption). subst ls.
+    rewrite !map_length in Hlen. assumption.
+Qed.
+
 (* makeClassesReady does nothing when no class that is not ready has all its supers ready *)
 Lemma ready_pass_noop : forall l w,
-  (forall id, In id l -> readyb w id = false -> exists c, get w id = Some c /\ co_inherit c = [] /\ supers_ready w (co_supers c) = false) ->
+  (forall id, In id l -> readyb w id = false -> exists c, get w id = Some c /\ blank c /\ supers_ready w (co_supers c) = false) ->
   ready_pass w l = (w, false).
 Proof.
   induction l as [|id r IH]; intros w H; simpl; [reflexivity|].
@@ -931,71 +1038,94 @@ Proof.
     assert (readyb w id = true) by (apply readyb_true; exists c; split; [apply Hr | congruence]). congruence. }
   exists c. split; [apply Hr|]. destruct (HJ m id c Hr) as [A B].
   assert (~ X id) as Hnx by (intro Hx; exact (A Hx Hb)).
-  destruct (B Hnx) as [Hg|[_ Hinh]]; [exfalso; exact (good_ready _ _ _ Hg Hb)|].
+  destruct (B Hnx) as [Hg|Hinh]; [exfalso; exact (good_ready _ _ _ Hg Hb)|].
   split; [assumption|]. apply (HF m id c Hr Hb).
 Qed.
 
 (* ---- classChanged over stale classes, in an order that respects the hierarchy -------------------- *)
 Lemma ext_registered1 : forall w w' n id c, ext w w' -> registered w n id c ->
-  exists c', registered w' n id c' /\ static_eq c c' /\ (co_prec c <> [] -> co_prec c' <> []).
+  exists c', registered w' n id c' /\ static_eq c c'.
 Proof.
-  intros w w' n id c E [L G]. pose proof E as [R [_ [_ [_ H]]]]. destruct (H id c G) as [c' [G' [S P]]].
-  exists c'. split; [split; [rewrite R; assumption | assumption]|]. split; assumption.
+  intros w w' n id c E [L G]. pose proof E as [R [_ [_ [_ H]]]]. destruct (H id c G) as [c' [G' S]].
+  exists c'. split; [split; [rewrite R; assumption | assumption] | assumption].
 Qed.
+Lemma supers_ready_anti : forall w w' supers, reg w' = reg w -> (forall j, readyb w' j = true -> readyb w j = true) ->
+  supers_ready w supers = false -> supers_ready w' supers = false.
+Proof.
+  intros w w' supers R H Hf. destruct (supers_ready w' supers) eqn:E; [|reflexivity].
+  rewrite supers_ready_true in E. rewrite <- Hf. symmetry. apply supers_ready_true.
+  intros s Hs. destruct (E s Hs) as [sid [L Rd]]. exists sid. split; [rewrite <- R; assumption | apply H; assumption].
+Qed.
+
+(* a list of classes to merge again in which every registered direct super of a class either does not inherit n
+   or comes earlier *)
+Fixpoint topo (w : world) (n : nat) (done l : list nat) : Prop :=
+  match l with
+  | [] => True
+  | id :: r =>
+      (exists c, get w id = Some c /\
+         forall d did, In d (co_supers c) -> lookup (reg w) d = Some did -> inherits w did n = false \/ In did done) /\
+      topo w n (id :: done) r
+  end.
 
 Section CCB.
   Variables (w0 : world) (n : nat).
   Let subs := sub_ids w0 n.
+  (* the classes of subs not merged yet are as in w0 (ready, stale); all others are good or blank; classes only
+     ever lose readiness *)
   Definition ccI (wk : world) (done : list nat) : Prop :=
     ext w0 wk /\ JX (fun j => In j subs /\ ~ In j done) wk /\ FF wk /\
     (forall j, ~ (In j subs /\ In j done) -> get wk j = get w0 j) /\
-    (forall j, readyb wk j = readyb w0 j).
+    (forall j, readyb wk j = true -> readyb w0 j = true).
   Hypothesis HJ0 : JX (fun j => In j subs) w0.
 
-  Lemma ccB_fold : forall r wk done, ccI wk done -> topo_ok w0 n done r = true ->
-    (forall id, In id r -> In id (reg_ids w0)) ->
+  Lemma ccB_fold : forall r wk done, ccI wk done -> topo w0 n done r ->
+    (forall id, In id r -> In id subs) ->
     exists done', (forall x, In x done' <-> In x done \/ In x r) /\
-                  ccI (fold_left (fun w id => if inherits w id n then fst (merge w id) else w) r wk) done'.
+                  ccI (fold_left (fun w id => fst (merge w id)) r wk) done'.
   Proof.
     induction r as [|id r IH]; intros wk done HIk Htopo Hreg; simpl.
     - exists done. split; [intros; tauto | assumption].
-    - simpl in Htopo. apply andb_true_iff in Htopo. destruct Htopo as [Hid Htopo].
+    - simpl in Htopo. destruct Htopo as [[c0' [Gc0 Hid]] Htopo].
       destruct HIk as [E [HJ [HF [Hun Hrd]]]].
       pose proof HJ0 as [HWF0 HJ0'].
-      destruct (reg_ids_registered w0 id HWF0 (Hreg id (or_introl eq_refl))) as [m [c0 Hr0]].
-      destruct (ext_registered1 _ _ _ _ _ E Hr0) as [ck [Hrk [[S1 [S2 S3]] _]]].
+      assert (In id subs) as Hidsubs by (apply Hreg; left; reflexivity).
+      pose proof (proj1 (sub_ids_In _ _ _) Hidsubs) as [Hidreg Hinh0].
+      destruct (reg_ids_registered w0 id HWF0 Hidreg) as [m [c0 Hr0]].
+      assert (c0' = c0) by (destruct Hr0 as [_ G]; congruence). subst c0'.
+      destruct (ext_registered1 _ _ _ _ _ E Hr0) as [ck [Hrk [S1 [S2 S3]]]].
+      pose proof E as [R0 _].
       assert (Hnext : forall wk', ccI wk' (id :: done) ->
         exists done', (forall x, In x done' <-> In x done \/ In x (id :: r)) /\
-          ccI (fold_left (fun w id => if inherits w id n then fst (merge w id) else w) r wk') done').
+          ccI (fold_left (fun w id => fst (merge w id)) r wk') done').
       { intros wk' HI'. destruct (IH wk' (id :: done) HI' Htopo) as [done' [Hd HI'']]; [intros x Hx; apply Hreg; right; assumption|].
         exists done'. split; [|assumption]. intros x. rewrite Hd. simpl. tauto. }
-      destruct (inherits wk id n) eqn:Hinh.
-      + (* merged *)
-        assert (inherits w0 id n = true) as Hinh0.
-        { destruct (inherits w0 id n) eqn:E0; [reflexivity|]. exfalso.
-          assert (get wk id = get w0 id) as Hsame.
-          { apply Hun. intros [Hs _]. apply sub_ids_In in Hs. destruct Hs as [_ Hs]. congruence. }
-          unfold inherits in Hinh, E0. rewrite Hsame in Hinh. congruence. }
-        rewrite Hinh0 in Hid. rewrite (proj2 Hr0) in Hid.
+      destruct (phase1 (reg wk) (heap wk) (co_supers ck) []) as [ds|] eqn:P.
+      + (* every direct super is ready: it is not waiting, hence good *)
         assert (Hsup : forall s, In s (co_supers ck) -> exists sid sc, registered wk s sid sc /\ good wk s sc).
-        { intros s Hs. rewrite S2 in Hs. rewrite forallb_forall in Hid. specialize (Hid s Hs).
-          destruct (lookup (reg w0) s) as [sid|] eqn:Ls; [|discriminate].
-          apply andb_true_iff in Hid. destruct Hid as [Hr Hord].
-          apply readyb_true in Hr. destruct Hr as [sc0 [Gs0 Ps0]].
-          destruct (ext_registered1 _ _ _ _ _ E (conj Ls Gs0)) as [sc [Hrs [_ Pk]]].
-          exists sid, sc. split; [assumption|].
-          destruct HJ as [_ HJk]. destruct (HJk s sid sc Hrs) as [_ B].
-          assert (~ (In sid subs /\ ~ In sid done)) as Hnx.
-          { intros [Hs1 Hs2]. apply orb_true_iff in Hord. destruct Hord as [Hord|Hord].
-            - apply sub_ids_In in Hs1. destruct Hs1 as [_ Hs1]. rewrite Hs1 in Hord. discriminate.
-            - apply memb_In in Hord. contradiction. }
-          destruct (B Hnx) as [Hg|[Hb _]]; [assumption|]. exfalso. exact (Pk Ps0 Hb). }
+        { intros s Hs. assert (forallb (ready_in (reg wk) (heap wk)) (co_supers ck) = true) as Hall.
+          { destruct (forallb (ready_in (reg wk) (heap wk)) (co_supers ck)) eqn:EE; [reflexivity|].
+            apply phase1_none_iff with (acc := []) in EE. congruence. }
+          rewrite forallb_forall in Hall. specialize (Hall s Hs). unfold ready_in in Hall.
+          destruct (lookup (reg wk) s) as [sid|] eqn:Ls; [|discriminate].
+          destruct (nth_error (heap wk) sid) as [sc|] eqn:Gs; [|discriminate].
+          exists sid, sc. split; [split; assumption|].
+          rewrite S2 in Hs. rewrite R0 in Ls. destruct (Hid s sid Hs Ls) as [Hord|Hord].
+          - destruct HJ as [_ HJk]. destruct (HJk s sid sc (conj (eq_trans (f_equal (fun r => lookup r s) R0) Ls) Gs)) as [_ B].
+            assert (~ (In sid subs /\ ~ In sid done)) as Hnx.
+            { intros [Hs1 _]. apply sub_ids_In in Hs1. destruct Hs1 as [_ Hs1]. rewrite Hs1 in Hord. discriminate. }
+            destruct (B Hnx) as [Hg|[Hb _]]; [assumption|]. rewrite Hb in Hall. discriminate.
+          - destruct HJ as [_ HJk]. destruct (HJk s sid sc (conj (eq_trans (f_equal (fun r => lookup r s) R0) Ls) Gs)) as [_ B].
+            assert (~ (In sid subs /\ ~ In sid done)) as Hnx by (intros [_ Hs2]; contradiction).
+            destruct (B Hnx) as [Hg|[Hb _]]; [assumption|]. rewrite Hb in Hall. discriminate. }
         destruct (merge_good wk m id ck (proj1 HJ) Hrk Hsup) as [w' [c' [M [G' Hg']]]].
         rewrite M. simpl. apply Hnext.
         destruct (merge_ext _ _ _ _ M) as [E' Hother].
-        assert (In id subs) as Hidsubs by (apply sub_ids_In; split; [eapply registered_reg_ids; eassumption | assumption]).
         assert (readyb wk id = true) as Rid.
-        { rewrite Hrd. apply readyb_true. exists c0. split; [apply Hr0|]. destruct (HJ0' m id c0 Hr0) as [A _]. apply A. assumption. }
+        { destruct (readyb wk id) eqn:Rk; [reflexivity|]. exfalso.
+          assert (co_prec ck = []) as Hb.
+          { destruct (co_prec ck) eqn:Ec; [reflexivity|]. assert (readyb wk id = true) by (apply readyb_true; exists ck; split; [apply Hrk | congruence]). congruence. }
+          pose proof (HF m id ck Hrk Hb) as Hsr. rewrite supers_ready_forallb in Hsr. apply (phase1_none_iff _ _ _ []) in Hsr. congruence. }
         pose proof (merge_ready_same _ _ _ M Rid) as Hsame.
         pose proof E' as [R' _].
         split; [eapply ext_trans; eassumption|]. split; [|split; [|split]].
@@ -1017,33 +1147,85 @@ Section CCB.
           rewrite (Hother j Hne) in Gm. rewrite (supers_ready_same wk w' _ R' Hsame). apply (HF m' j cj); [split; assumption | assumption].
         * intros j Hj. assert (j <> id) as Hne. { intros ->. apply Hj. split; [assumption | left; reflexivity]. }
           rewrite (Hother j Hne). apply Hun. intros [H1 H2]. apply Hj. split; [assumption | right; assumption].
-        * intros j. rewrite Hsame. apply Hrd.
-      + (* skipped *)
-        apply Hnext. split; [assumption|]. split; [|split; [assumption|split; [|assumption]]].
-        * apply (JX_iff (fun j => In j subs /\ ~ In j done)); [|assumption].
-          intros j. split.
-          -- intros [H1 H2]. split; [assumption|]. intros [Hc|Hc]; [|contradiction]. subst j.
-             (* id is a stale class that was never merged: it still inherits n *)
-             assert (get wk id = get w0 id) as Hsame by (apply Hun; tauto).
-             apply sub_ids_In in H1. destruct H1 as [_ H1]. unfold inherits in Hinh, H1. rewrite Hsame in Hinh. congruence.
-          -- intros [H1 H2]. split; [assumption|]. intro Hc. apply H2. right. assumption.
-        * intros j Hj. apply Hun. intros [H1 H2]. apply Hj. split; [assumption | right; assumption].
+        * intros j Hj. rewrite Hsame in Hj. apply Hrd. assumption.
+      + (* some direct super is missing or not ready: the class is blanked and waits *)
+        destruct (merge_fail_blank wk id ck (proj2 Hrk) P) as [w' [M G']].
+        rewrite M. simpl. apply Hnext.
+        destruct (merge_ext _ _ _ _ M) as [E' Hother].
+        pose proof E' as [R' _].
+        assert (Hanti : forall j, readyb w' j = true -> readyb wk j = true).
+        { intros j Hj. destruct (Nat.eq_dec j id) as [->|Hne].
+          - unfold readyb in Hj. rewrite G' in Hj. discriminate.
+          - unfold readyb in *. rewrite (Hother j Hne) in Hj. assumption. }
+        assert (Hsrk : supers_ready wk (co_supers ck) = false).
+        { rewrite supers_ready_forallb. apply (phase1_none_iff _ _ _ []). assumption. }
+        split; [eapply ext_trans; eassumption|]. split; [|split; [|split]].
+        * split; [eapply ext_WF; [exact E' | apply HJ]|].
+          intros m' j cj [Lm Gm]. rewrite R' in Lm.
+          destruct (Nat.eq_dec j id) as [->|Hne].
+          -- rewrite G' in Gm. inversion Gm; subst cj.
+             split; [intros [_ Hc]; exfalso; apply Hc; left; reflexivity | intros _; right; apply blanked_blank].
+          -- rewrite (Hother j Hne) in Gm. destruct HJ as [_ HJk]. destruct (HJk m' j cj (conj Lm Gm)) as [A B]. split.
+             ++ intros [Hx1 Hx2]. apply A. split; [assumption|]. intro Hc. apply Hx2. right. assumption.
+             ++ intros Hnx. destruct B as [Hg|Hb].
+                ** intros [Hx1 Hx2]. apply Hnx. split; [assumption|]. intros [Hc|Hc]; [congruence | contradiction].
+                ** left. eapply ext_good; eassumption.
+                ** right. assumption.
+        * intros m' j cj [Lm Gm] Hb. rewrite R' in Lm.
+          apply (supers_ready_anti wk w' _ R' Hanti).
+          destruct (Nat.eq_dec j id) as [->|Hne].
+          -- rewrite G' in Gm. inversion Gm; subst cj. simpl. assumption.
+          -- rewrite (Hother j Hne) in Gm. apply (HF m' j cj); [split; assumption | assumption].
+        * intros j Hj. assert (j <> id) as Hne. { intros ->. apply Hj. split; [assumption | left; reflexivity]. }
+          rewrite (Hother j Hne). apply Hun. intros [H1 H2]. apply Hj. split; [assumption | right; assumption].
+        * intros j Hj. apply Hrd. apply Hanti. assumption.
+  Qed.
+
+  (* the order classChanged sorts the stale classes into is such a list *)
+  Hypothesis Hlen : forall id m c, In id subs -> registered w0 m id c ->
+    forall s did, In s (co_supers c) -> lookup (reg w0) s = Some did -> In did subs -> inh_len w0 did < inh_len w0 id.
+
+  Lemma topo_of_sorted : forall l done, sortedf (inh_len w0) l -> (forall id, In id l -> In id subs) ->
+    (forall x, In x subs -> In x done \/ In x l) -> topo w0 n done l.
+  Proof.
+    induction l as [|id r IH]; intros done Hs Hsub Hcov; simpl; [exact I|].
+    destruct Hs as [Hmin Hs]. pose proof HJ0 as [HWF0 _].
+    assert (In id subs) as Hidsubs by (apply Hsub; left; reflexivity).
+    pose proof (proj1 (sub_ids_In _ _ _) Hidsubs) as [Hidreg Hinh0].
+    destruct (reg_ids_registered w0 id HWF0 Hidreg) as [m [c Hr]].
+    split.
+    - exists c. split; [apply Hr|]. intros d did Hd Ld.
+      destruct (inherits w0 did n) eqn:Ei; [|left; reflexivity]. right.
+      assert (In did subs) as Hdsubs.
+      { apply sub_ids_In. split; [|assumption]. unfold reg_ids. apply in_map_iff. exists (d, did). split; [reflexivity | apply lookup_In; assumption]. }
+      pose proof (Hlen id m c Hidsubs Hr d did Hd Ld Hdsubs) as Hlt.
+      destruct (Hcov did Hdsubs) as [Hdone|[Heq|Hin]]; [assumption | subst; lia | specialize (Hmin did Hin); lia].
+    - apply IH; [assumption | intros x Hx; apply Hsub; right; assumption|].
+      intros x Hx. destruct (Hcov x Hx) as [H|[H|H]]; [left; right; assumption | left; left; assumption | right; assumption].
   Qed.
 End CCB.
 
 Lemma class_changed_B : forall w n corder, JX (fun j => In j (sub_ids w n)) w -> FF w ->
-  topo_ok w n [] corder = true -> (forall id, In id corder -> In id (reg_ids w)) ->
+  (forall id m c, In id (sub_ids w n) -> registered w m id c ->
+    forall s did, In s (co_supers c) -> lookup (reg w) s = Some did -> In did (sub_ids w n) -> inh_len w did < inh_len w id) ->
+  (forall id, In id corder -> In id (reg_ids w)) ->
   (forall id, In id (sub_ids w n) -> In id corder) ->
   Inv (class_changed w n corder) /\ ext w (class_changed w n corder).
 Proof.
-  intros w n corder HJ HF Htopo Hreg Hall. unfold class_changed.
-  destruct (ccB_fold w n HJ corder w []) as [done' [Hd [E [HJ' [HF' _]]]]].
-  - split; [apply ext_refl|]. split; [|split; [assumption|split; [reflexivity|reflexivity]]].
+  intros w n corder HJ HF Hlen Hreg Hall. unfold class_changed.
+  assert (Hsub : forall id, In id (stale_order w n corder) -> In id (sub_ids w n)).
+  { intros id Hi. apply stale_order_In in Hi. apply sub_ids_In. split; [apply Hreg; apply Hi | apply Hi]. }
+  assert (Hcov : forall x, In x (sub_ids w n) -> In x [] \/ In x (stale_order w n corder)).
+  { intros x Hx. right. apply stale_order_In. split; [apply Hall; assumption|]. apply sub_ids_In in Hx. apply Hx. }
+  pose proof (topo_of_sorted w n HJ Hlen (stale_order w n corder) [] (sort_by_sorted _ _) Hsub Hcov) as Htopo.
+  destruct (ccB_fold w n HJ (stale_order w n corder) w []) as [done' [Hd [E [HJ' [HF' _]]]]].
+  - split; [apply ext_refl|]. split; [|split; [assumption|split; [reflexivity | intros j Hj; exact Hj]]].
     apply (JX_iff (fun j => In j (sub_ids w n))); [|assumption]. intros j. simpl. tauto.
   - assumption.
   - assumption.
   - split; [|assumption]. split; [|assumption]. apply (JX_iff (fun j => In j (sub_ids w n) /\ ~ In j done')); [|assumption].
-    intros j. unfold NoX. split; [|tauto]. intros [H1 H2]. apply H2. apply Hd. right. apply Hall. assumption.
+    intros j. unfold NoX. split; [|tauto]. intros [H1 H2]. apply H2. apply Hd. right.
+    destruct (Hcov j H1) as [[]|H]. assumption.
 Qed.
 
 (* ---- defclass preserves the invariant inside the guard ------------------------------------------ *)
@@ -1063,8 +1245,6 @@ Lemma g_defclass_parts : forall w n supers slots rorder corder, g_defclass w n s
         let subs := sub_ids w n in
         let bad := n :: flat_map (fun id => match name_of w id with Some m => [m] | None => [] end) subs in
         forallb (fun d => negb (memb d bad)) supers
-        && topo_ok (defclass_pre w n supers slots rorder) n [] corder
-        && forallb (fun k => negb (memb k bad)) (cache_keys w)
       else true
   end = true.
 Proof.
@@ -1073,14 +1253,21 @@ Proof.
   repeat split; assumption.
 Qed.
 
+(* the invariant speaks of the heap and the registry only *)
+Lemma Inv_clear : forall w, Inv w -> Inv (clear_caches w).
+Proof. intros [h r g i] H. exact H. Qed.
+
 Theorem defclass_inv : forall w n supers slots rorder corder, Inv w ->
   g_defclass w n supers slots rorder corder = true ->
   Inv (defclass w n supers slots rorder corder) /\
-  ext (defclass_reg w n supers slots) (defclass w n supers slots rorder corder).
+  ext (defclass_reg w n supers slots) (defclass_merged w n supers slots rorder corder).
 Proof.
   intros w n supers slots rorder corder HI G.
+  cut (Inv (defclass_merged w n supers slots rorder corder) /\
+       ext (defclass_reg w n supers slots) (defclass_merged w n supers slots rorder corder)).
+  { intros [A B]. split; [apply Inv_clear; assumption | assumption]. }
   destruct (g_defclass_parts _ _ _ _ _ _ G) as [A2 [R1 [R2 [C1 [C2 Hcase]]]]]. clear G.
-  apply nodupb_NoDup in A2. unfold defclass. unfold defclass_pre in *.
+  apply nodupb_NoDup in A2. unfold defclass_merged. unfold defclass_pre in *.
   set (wr := defclass_reg w n supers slots) in *.
   assert (HR1 : forall id, In id (reg_ids wr) -> In id rorder) by (intros id Hi; apply memb_In; exact (forallb_In _ _ _ id R1 Hi)).
   assert (HR2 : forall id, In id rorder -> In id (reg_ids wr)) by (intros id Hi; apply memb_In; exact (forallb_In _ _ _ id R2 Hi)).
@@ -1094,8 +1281,7 @@ Proof.
   destruct (lookup (reg w) n) as [old|] eqn:Lold.
   - destruct (readyb w old) eqn:Rold.
     + (* case B *)
-      repeat (apply andb_true_iff in Hcase; destruct Hcase as [Hcase ?]).
-      rename H into Gcache, H0 into Gtopo. rename Hcase into G1.
+      rename Hcase into G1.
       apply readyb_true in Rold. destruct Rold as [oc [Go Po]].
       assert (HG1 : forall s sid, In s supers -> lookup (reg w) s = Some sid -> s <> n /\ ~ In sid (sub_ids w n)).
       { intros s sid Hs Ls. pose proof (forallb_In _ _ _ s G1 Hs) as Hb. apply negb_true_iff in Hb. apply memb_false in Hb.
@@ -1105,9 +1291,10 @@ Proof.
           unfold name_of. destruct HI as [[[_ HW] _] _]. destruct (HW s sid Ls) as [c [Gc [Nc _]]]. rewrite Gc. left. assumption. }
       destruct (reg_B w n supers slots old oc HI A2 (conj Lold Go) Po HG1) as [HJ HF]. fold wr in HJ, HF.
       rewrite (make_ready_noop _ wr rorder HJ HF HR2) in *.
+      assert (HC1 : forall id, In id (sub_ids wr n) -> In id corder) by (intros id Hi; apply memb_In; exact (forallb_In _ _ _ id C1 Hi)).
       apply class_changed_B; try assumption.
+      * apply reg_B_len; assumption.
       * intros id Hi. apply memb_In. exact (forallb_In _ _ _ id C2 Hi).
-      * intros id Hi. apply memb_In. exact (forallb_In _ _ _ id C1 Hi).
     + apply HcaseA. intros id c [L Gc]. rewrite Lold in L. inversion L; subst id.
       destruct (co_prec c) eqn:E; [reflexivity|]. exfalso.
       assert (readyb w old = true) by (apply readyb_true; exists c; split; [assumption | congruence]). congruence.
